@@ -88,7 +88,8 @@ def ap_handle_faucet():
         ])
 
 def ap_balanced():
-    return dict(ensures=[C("iff", "res is Ok <==> balanced(tx_kind, in_coins@, out_coins@)", "C01", "C02"),
+    return dict(ensures=[C("iff", "res is Ok <==> balanced(tx_kind, in_coins@, out_coins@)", "C01", "C02", "C09", "C18",
+                           note="C09/C18: a balanced non-faucet transaction has an input (MEL is always among the outputs' denominations), which is what DoscMint validation's `inputs.get(0).expect(..)` rests on (seed C09g)"),
                          C("err", "res is Err ==> res->Err_0 is UnbalancedInOut", "C01", char=True)])
 
 def ap_stake_consistent():
@@ -143,14 +144,14 @@ def ap_check_tx_validity():
             C("distinct_cov", "forall|a: int, b: int| 0 <= a < b < tx.inputs@.len() && relevant_coins@.contains_key(tx.inputs@[a]) && relevant_coins@.contains_key(tx.inputs@[b]) ==> relevant_coins@[tx.inputs@[a]].coin_data.covhash != relevant_coins@[tx.inputs@[b]].coin_data.covhash", envelope_of="F-C04-cache"),
         ],
         ensures=[
-            C("exist", "res is Ok ==> forall|i: int| 0 <= i < tx.inputs@.len() ==> relevant_coins@.contains_key(#[trigger] tx.inputs@[i])", "C02", "C04", "C19"),
+            C("exist", "res is Ok ==> forall|i: int| 0 <= i < tx.inputs@.len() ==> relevant_coins@.contains_key(#[trigger] tx.inputs@[i])", "C02", "C04", "C19", "C09", "C18"),
             C("unlocked", "res is Ok && !lock_legacy(this.network, this.height) ==> forall|i: int| 0 <= i < tx.inputs@.len() ==> !new_stakes@.contains_key((#[trigger] tx.inputs@[i]).txhash) && !this.stakes@.contains_key(tx.inputs@[i].txhash)", "C13", "C02"),
             C("approved", "res is Ok ==> forall|i: int| 0 <= i < tx.inputs@.len() ==> script_approves(spec_covenants_map(*tx), relevant_coins@[tx.inputs@[i]].coin_data.covhash, *tx, #[trigger] env_of(*tx, relevant_coins@, i, spec_last_header(*this)))", "C04", "C02", "C19"),
             C("approved_first", "res is Ok ==> forall|i: int| 0 <= i < tx.inputs@.len() && first_occ(*tx, relevant_coins@, i) ==> script_approves(spec_covenants_map(*tx), relevant_coins@[tx.inputs@[i]].coin_data.covhash, *tx, #[trigger] env_of(*tx, relevant_coins@, i, spec_last_header(*this)))", "C04", "C02", "C19",
               note="holds WITHOUT the envelopes of the two C04 findings: the first input locked by each covenant hash is always run against its own environment (the cache cannot have it yet); this is what the marker / destroyed-output arguments of the batch level rest on"),
             C("pos", "res is Ok ==> forall|i: int| 0 <= i < tx.inputs@.len() ==> (#[trigger] env_of(*tx, relevant_coins@, i, spec_last_header(*this))).spender_index as int == i", "C04",
               note="the position among the inputs that a covenant is told IS the input's position (the code passes `position as u8`); holds under the envelope `small`, fails without it: known finding F-C04-index"),
-            C("balanced", "res is Ok ==> balanced(tx.kind, in_sums(tx.inputs@, relevant_coins@, tx.inputs@.len() as int), spec_total_outputs(*tx))", "C01", "C02"),
+            C("balanced", "res is Ok ==> balanced(tx.kind, in_sums(tx.inputs@, relevant_coins@, tx.inputs@.len() as int), spec_total_outputs(*tx))", "C01", "C02", "C09", "C18"),
             C("errkind", "res is Err ==> !(res->Err_0 is WrongHeader)", "C06", char=True),
             C("locked_err", "(exists|i: int| 0 <= i < tx.inputs@.len() && (new_stakes@.contains_key((#[trigger] tx.inputs@[i]).txhash) || this.stakes@.contains_key(tx.inputs@[i].txhash))) && !lock_legacy(this.network, this.height) ==> res is Err", "C13"),
         ])
